@@ -180,7 +180,12 @@ type DFS struct {
 	// there to Frontier instead of inserting them (used by the master).
 	MaxDepth int
 	Frontier func(path []sim.Event, key [16]byte)
-	stop     bool
+	// Props, if non-empty, lists the properties whose violations end a path;
+	// violations of other properties are reported but exploration goes on
+	// beyond them (so that a later violation of the checked property is still
+	// reachable).
+	Props []string
+	stop  bool
 }
 
 func (d *DFS) count(e sim.Event) {
@@ -314,10 +319,16 @@ func (d *DFS) step(x *Exec, p []sim.Event) bool {
 		panic(fmt.Sprintf("INFRA: enabled event %v could not be applied: %v", e, err))
 	}
 	if v != nil {
+		prune := len(d.Props) == 0
 		for _, w := range x.All {
 			d.found(w, p)
+			for _, pr := range d.Props {
+				if w.Property == pr || w.Property == "C18" {
+					prune = true
+				}
+			}
 		}
-		return false
+		return !prune
 	}
 	return true
 }
